@@ -4,7 +4,7 @@ import OPM.Model.RunState
 /-!
 Line-protocol driver of model M1 (RunState).
 
-First line of a case:  `cfg <guard> <clocks> <prevFix> <mode> <safes> <outs>`
+First line of a case:  `cfg <guard> <clocks> <prevFix> [<startWrite> <pauseGate> <errSafe>] <mode> <safes> <outs>`
   flags `0/1`; mode `c06|c07|c09|all` selects which observations are printed; `safes` = comma list of
   safe values (`_` = register has none); `outs` = initial output tag values.
 Then:
@@ -120,6 +120,15 @@ def step (σ : Option Sess) (line : String) : Option Sess × String :=
       let st := init cfg outs
       (some ⟨cfg, mode, st⟩, "init " ++ observe mode st 0)
     | _, _, _, _, _ => (none, "bad-op")
+  | none, ["cfg", g, c, p, sw, pg, es, mode, safes, outs] =>
+    match parseBool g, parseBool c, parseBool p, parseBool sw, parseBool pg, parseBool es,
+          parseSafes safes, intList outs with
+    | some g, some c, some p, some sw, some pg, some es, some safes, some outs =>
+      let cfg : Cfg := { safes, guard := g, clocks := c, prevFix := p, startWrite := sw, pauseGate := pg,
+                         errSafe := es }
+      let st := init cfg outs
+      (some ⟨cfg, mode, st⟩, "init " ++ observe mode st 0)
+    | _, _, _, _, _, _, _, _ => (none, "bad-op")
   | none, _ => (none, "bad-op")
   | some ss, fs =>
     let nw0 := ss.st.core.writes.length
